@@ -235,6 +235,7 @@ func runC12(c *an.Ctx) {
 	}
 	c.OK("C12.pos", "(*NodeBase).errorf", p.Jet.Syntax[0].Pos(), "all other failures are raised through NodeBase.errorf")
 	convGuards(c, "C12.panicval", nil)
+	boundsRule(c, "C12.panicval")
 
 	// ---------------------------------------------------------------- C12.nilrecv
 	nCalls := 0
@@ -565,7 +566,7 @@ func c12early(c *an.Ctx, parse map[*an.Fn]bool) {
 			continue
 		}
 		for i := 0; i < f.Sig.Params().Len(); i++ {
-			if pv := f.Sig.Params().At(i); pv.Name() == "line" {
+			if pv := f.Sig.Params().At(i); an.RoleOf(pv) == "line" {
 				lineParam[f.Obj] = i
 			}
 		}
